@@ -10,6 +10,7 @@ import LianVerif.Drv.MapLoader
 import LianVerif.Drv.Cfg
 import LianVerif.Drv.Determinism
 import LianVerif.Drv.ReachDef
+import LianVerif.Drv.Events
 
 open Lean LianVerif.Drv
 
@@ -24,6 +25,7 @@ def dispatch (j : Json) : Except String Json := do
   | "cfgcheck" => LianVerif.Drv.Cfg.handleCheck j
   | "determinism" => LianVerif.Drv.Determinism.handle j
   | "worklist" | "reachdef" => LianVerif.Drv.ReachDef.handle j
+  | "events" => LianVerif.Drv.Events.handle j
   | _ => throw s!"unknown model {m}"
 
 partial def loop (hin hout : IO.FS.Stream) : IO Unit := do
